@@ -301,7 +301,7 @@ def run(ctx):
     ctx.guard(_C06._absent, ctx, py)
     # frame of the modules under contract (no state kept between calls, arguments left alone): same analysis as C19
     from props import C19 as _C19
-    ctx.guard(_C19.frame_obligations, ctx, py, "C09", {'filters'})
+    ctx.guard(_C19.frame_obligations, ctx, py, "C09", {'util', 'filters'})
 
 
 def _replay(py, name, cex, mode):
